@@ -42,6 +42,6 @@ def run(rep, tier, seed):
     rep.level = "exploration"
     rep.assume("A1", "A2", "A4", "A5", "A6", "A8")
     D.run_contracts(rep, "C19", D.FIT, tier, with_lemmas=False)
-    D.run_contracts(rep, "C19", [("contracts.binners", "sums_numitems")], tier)
+    D.run_contracts(rep, "C19", [("contracts.binners", "sums_numitems"), ("contracts.exact", "cbldm_arguments"), ("contracts.bincompletion", "bin_completion_oversize")], tier)
     t3(rep, tier, seed)
     D.link_falsifier(rep)
